@@ -311,6 +311,50 @@ static std::string doStep(Context& ctx, const std::string& src) {
   return res;
 }
 
+// BEGIN INT
+// The interactive runner as apps/cli_parser.cpp runs it (main loop of `bloc -i`): every statement is parsed on its own and its
+// chain is executed with Statement::execute directly — NOT through Executable::run, so no Context::onRuntimeError() when it
+// fails; the loop only purges the working memory and goes on with the next statement. The statements stay alive until the
+// session ends (the cli keeps them in `statements`): here until the case's contexts are released (intReleaseKept).
+//   istep K <hex>   -> steps=<r1>,<r2>,…  with ri = ok | ret | rerr <code>[ <hexname>] | perr <code> <l>:<c> (parse error: that statement is dropped)
+static std::vector<const Statement*> g_int_keep;
+static void intReleaseKept() { for (auto* s : g_int_keep) delete s; g_int_keep.clear(); }
+static std::string doIStep(Context& ctx, const std::string& src) {
+  StringReader reader(src);
+  Parser* p = Parser::createInteractiveParser(ctx, reader);
+  if (!p) return "perr -1";
+  std::string res = "steps=";
+  bool first = true;
+  try {
+    for (;;) {
+      Statement* s = nullptr;
+      std::string r;
+      try { s = p->parseStatement(); }
+      catch (ParseError& pe) {
+        if (pe.no == EXC_PARSE_EOF) break;
+        if (!first) res += ","; first = false;
+        res += perr(pe);
+        p->clear();
+        continue;
+      }
+      if (s == nullptr) { if (p->state() == Parser::Aborted) break; continue; }
+      r = "ok";
+      const Statement* x = s;
+      while (x) {
+        try { x = x->execute(ctx); }
+        catch (RuntimeError& re) { r = rerr(re); ctx.purgeWorkingMemory(); break; }
+      }
+      g_int_keep.push_back(s);
+      if (ctx.returnCondition()) { ctx.returnCondition(false); Value* v = ctx.dropReturned(); if (v) delete v; r = "ret"; }
+      if (!first) res += ","; first = false;
+      res += r;
+    }
+  } catch (...) { delete p; throw; }
+  delete p;
+  return res;
+}
+// END INT
+
 // BEGIN C16 C17
 // Ops of the module-permission (C16) and module-object lifetime (C17) checks. The verification modules
 // harness/vmod (libbloc_vmod.so.N, libbloc_vmod2.so.N; found through LD_LIBRARY_PATH, see vlib/build_vmod.py)
@@ -717,6 +761,9 @@ static std::string doOp(const std::string& op) {
     return r;
   }
   if (cmd == "step") return doStep(*K(1).ctx, hexdec(a.at(2)));
+  // BEGIN INT
+  if (cmd == "istep") return doIStep(*K(1).ctx, hexdec(a.at(2)));
+  // END INT
   if (cmd == "expr") {
     Context& c = *K(1).ctx; StringReader reader(hexdec(a.at(2)));
     Parser* p = Parser::createInteractiveParser(c, reader);
@@ -832,6 +879,9 @@ int main(int argc, char** argv) {
     // release everything the case created
     for (auto& x : g_exe) { delete x; x = nullptr; }
     for (auto& s : g_ctx) { if (s.ctx) { delete s.ctx; s.ctx = nullptr; } if (s.fd >= 0) { close(s.fd); s.fd = -1; } s.rd = 0; }
+    // BEGIN INT
+    intReleaseKept();
+    // END INT
     g_objids.clear();
     out = g_caseid + " " + out + "\n";
     fwrite(out.data(), 1, out.size(), stdout);
